@@ -12,14 +12,16 @@ func init() {
 	register(&PropDef{
 		ID:    "C12",
 		Title: "Input framing is independent of how the network chops the stream",
-		Decided: "necessary capacity and ordering conditions only: R1 every input obtains its lines from a standard-library framing primitive applied to the whole stream, whose maximum line length is at least the documented limit (bufio.Scanner: 64 KiB token limit unless Buffer() lowers it; Reader.ReadLine with the isPrefix result discarded: the reader's size; 4 KiB for AMQP), the UDP read buffer holds a maximal datagram (65535), and the scanner keeps its default line splitter; " +
-			"R2 between obtaining a line and Dispatcher.Dispatch there is no `go` statement and the dispatch happens in the loop iteration that obtained the line; each datagram / connection is handled to completion by the goroutine that read it (no goroutine is started with the reusable read buffer).",
+		Decided: "necessary capacity and ordering conditions only: R1 every input obtains its lines from a standard-library framing primitive applied to the whole stream, whose maximum line length is at least the documented limit (bufio.Scanner: lines shorter than the larger of Buffer()'s maximum and its initial buffer, 64 KiB by default; Reader.ReadLine with the isPrefix result discarded: the reader's size; 4 KiB for AMQP), the UDP read buffer holds a maximal datagram (65535), and the scanner keeps its default line splitter; " +
+			"R2 between obtaining a line and Dispatcher.Dispatch there is no `go` statement and the dispatch happens in the loop iteration that obtained the line; each datagram / connection is handled to completion by the goroutine that read it (no goroutine is started with the reusable read buffer); " +
+			"R4 every io.Reader wrapper of package input between the socket and the handlers returns the byte count of the underlying Read on every path, so data delivered together with EOF or a timeout error reaches the scanner.",
 		NotDecided:  "chunk-invariance itself: it follows from the documented contract of bufio.Scanner / bufio.Reader over the whole stream, which is assumed, not analysed; carriage-return handling inside ScanLines.",
 		Assumptions: []string{"bufio.Scanner with the default split function yields exactly the newline-delimited lines of its reader, however Read chops the stream (documented contract)"},
 		Rules: []RuleDef{
 			{ID: "C12.R3", Min: 2, Doc: "handlers are re-entrant: one Handler object serves every connection of a listener, each in its own goroutine; Plain.Handle / Pickle.Handle and the methods they call on the receiver never store into a field of the receiver nor hand out a field's address", Run: c12r3},
 			{ID: "C12.R1", Min: 3, Doc: "line capacity per input: framing API used by Plain.Handle / Amqp.consumeAMQP and its effective maximum token size; size of the UDP buffer", Run: c12r1},
 			{ID: "C12.R2", Min: 4, Doc: "order and once: one Dispatch per obtained line in the same loop iteration, no go statement in the handlers; HandleData/HandleConn are invoked synchronously with the read buffer", Run: c12r2},
+			{ID: "C12.R4", Min: 1, Doc: "reader wrappers pass the count through: every function of package input that forwards its []byte to an underlying Read (TimeoutConn.Read) returns, on every path after that call, the n the call returned — also together with an error", Run: c12r4},
 		},
 	})
 }
@@ -51,14 +53,7 @@ func c12r1(c *Check) {
 	how := ""
 	switch {
 	case newScanner != nil && readLine == nil:
-		capacity, how = kib64, "bufio.Scanner (default 64 KiB token limit)"
-		if bufferCall != nil {
-			if k, ok := constInt(bufferCall.Call.Args[2]); ok {
-				capacity, how = k, fmt.Sprintf("bufio.Scanner.Buffer(max=%d)", k)
-			} else {
-				capacity, how = -1, "bufio.Scanner.Buffer with a non-constant maximum"
-			}
-		}
+		capacity, how = scannerCapacity(bufferCall)
 		if newScanner.Call.Args[0] != ssa.Value(ph.Params[1]) {
 			if mi, ok := newScanner.Call.Args[0].(*ssa.MakeInterface); !ok || mi.X != ssa.Value(ph.Params[1]) {
 				capacity, how = -1, "the scanner does not read the handler's whole stream"
@@ -74,11 +69,11 @@ func c12r1(c *Check) {
 	default:
 		how = "no standard framing primitive found (hand-written read loop)"
 	}
-	c.Judge(capacity >= kib64, "input.Plain.Handle line capacity >= 64 KiB", c.AtFn(ph), how, fmt.Sprintf("plain-text lines are framed by %s, capacity %d bytes < 65536: a longer (documented as supported) line is processed as fragments or aborts the connection", how, capacity))
+	c.Judge(capacity >= kib64-1, "input.Plain.Handle line capacity >= 64 KiB", c.AtFn(ph), how, fmt.Sprintf("plain-text lines are framed by %s, capacity %d bytes < 65535: a longer (documented as supported) line is processed as fragments or aborts the connection", how, capacity))
 	// AMQP: ReadLine on NewReaderSize(…, 4096)
 	am := c.P.Func("input", "*Amqp", "consumeAMQP")
 	readLine, newReader = nil, nil
-	var amScanner *ssa.Call
+	var amScanner, amBuffer, amSplit *ssa.Call
 	for _, f := range samePkgCallees(c.P, am) {
 		allInstrs(f, func(in ssa.Instruction) {
 			if call, ok := in.(*ssa.Call); ok {
@@ -89,6 +84,10 @@ func c12r1(c *Check) {
 					newReader = call
 				case "bufio.NewScanner":
 					amScanner = call
+				case "(*bufio.Scanner).Buffer":
+					amBuffer = call
+				case "(*bufio.Scanner).Split":
+					amSplit = call
 				}
 			}
 		})
@@ -97,7 +96,14 @@ func c12r1(c *Check) {
 	if readLine != nil {
 		cap2, how2 = readerCapacity(readLine, newReader)
 	} else if amScanner != nil {
-		cap2, how2 = kib64, "bufio.Scanner"
+		// "lines up to 4 KiB are processed whole": a scanner whose buffer may not grow beyond m bytes
+		// carries lines shorter than m only
+		cap2, how2 = scannerCapacity(amBuffer)
+		if amSplit != nil {
+			if f := resolveFuncValue(amSplit.Call.Args[1]); f == nil || f.String() != "bufio.ScanLines" {
+				cap2, how2 = -1, "the scanner uses a custom split function"
+			}
+		}
 	}
 	c.Judge(cap2 >= 4096, "input.Amqp.consumeAMQP line capacity >= 4 KiB", c.AtFn(am), how2, fmt.Sprintf("AMQP bodies are framed by %s, capacity %d bytes < 4096", how2, cap2))
 	// the reader wraps the whole message body
@@ -143,6 +149,97 @@ func c12r1(c *Check) {
 		}
 	})
 	c.Judge(size >= 65535, "input.Listener.consumeUdp buffer holds a maximal datagram", c.AtFn(cu), fmt.Sprintf("%d bytes", size), fmt.Sprintf("the UDP read buffer is %d bytes: larger datagrams are silently truncated in the middle of a line", size))
+}
+
+// scannerCapacity: the longest line a bufio.Scanner with the line splitter hands over whole. Scan gives up
+// with ErrTooLong when its buffer is full without a complete token and the buffer is already
+// max(maxTokenSize, cap(initial buffer)) bytes long; the buffer must also hold the terminator (at the time of the
+// test the scanner has not seen the end of the stream yet), so a line is carried iff it is shorter than that size.
+// Without Buffer() the size is bufio.MaxScanTokenSize = 64 KiB.
+func scannerCapacity(bufferCall *ssa.Call) (int64, string) {
+	if bufferCall == nil {
+		return kib64 - 1, "bufio.Scanner (default 64 KiB token limit)"
+	}
+	max, ok := constLenInt(bufferCall.Call.Args[2])
+	if !ok {
+		return -1, "bufio.Scanner.Buffer with a non-constant maximum"
+	}
+	size := max
+	// a larger initial buffer is used to its full capacity before the limit is consulted
+	if _, k, ok := sliceConstSize(bufferCall.Call.Args[1]); ok && k > size {
+		size = k
+	}
+	return size - 1, fmt.Sprintf("bufio.Scanner.Buffer(max=%d): lines shorter than %d bytes", max, size)
+}
+
+// constLenInt: an integer constant, or len/cap of a slice of constant size.
+func constLenInt(v ssa.Value) (int64, bool) {
+	if k, ok := constInt(v); ok {
+		return k, true
+	}
+	switch x := strip(v).(type) {
+	case *ssa.Call:
+		if b, ok := x.Call.Value.(*ssa.Builtin); ok && (b.Name() == "len" || b.Name() == "cap") && len(x.Call.Args) == 1 {
+			l, c, ok := sliceConstSize(x.Call.Args[0])
+			if b.Name() == "cap" {
+				l = c
+			}
+			return l, ok
+		}
+	case *ssa.Phi:
+		var k0 int64
+		for i, e := range x.Edges {
+			k, ok := constLenInt(e)
+			if !ok || i > 0 && k != k0 {
+				return 0, false
+			}
+			k0 = k
+		}
+		return k0, len(x.Edges) > 0
+	}
+	return 0, false
+}
+
+// sliceConstSize: length and capacity of a slice created with constant sizes: make([]T, l[, c]) (lowered to
+// a MakeSlice or to the slice of a fresh array) and the whole or a constant front part of an array.
+func sliceConstSize(v ssa.Value) (length, capacity int64, ok bool) {
+	switch x := strip(v).(type) {
+	case *ssa.MakeSlice:
+		l, ok1 := constInt(x.Len)
+		c, ok2 := constInt(x.Cap)
+		return l, c, ok1 && ok2
+	case *ssa.Slice:
+		pt, isPtr := x.X.Type().Underlying().(*types.Pointer)
+		if !isPtr {
+			return 0, 0, false
+		}
+		arr, isArr := pt.Elem().Underlying().(*types.Array)
+		if !isArr {
+			return 0, 0, false
+		}
+		if x.Low != nil {
+			if k, ok := constInt(x.Low); !ok || k != 0 {
+				return 0, 0, false
+			}
+		}
+		length, capacity = arr.Len(), arr.Len()
+		if x.Max != nil {
+			k, ok := constInt(x.Max)
+			if !ok {
+				return 0, 0, false
+			}
+			capacity, length = k, k
+		}
+		if x.High != nil {
+			k, ok := constInt(x.High)
+			if !ok {
+				return 0, 0, false
+			}
+			length = k
+		}
+		return length, capacity, true
+	}
+	return 0, 0, false
 }
 
 // readerCapacity: ReadLine yields at most the reader's buffer size per call; if isPrefix (#1) is used the caller can reassemble.
